@@ -53,6 +53,7 @@ class Mod:
             except SyntaxError as e:
                 raise AnalysisError(f'{path}: syntax error line {e.lineno}')
         self.defs: dict[str, ast.AST] = {}
+        self.ambiguous: set[str] = set()
         self.imports: dict[str, tuple] = {}
         self._index()
 
@@ -73,6 +74,16 @@ class Mod:
         return '.'.join(parts + ([module] if module else []))
 
     def _index(self):
+        def static_test(t):
+            # The package defines some names twice, `if use_numba: <numba-compiled> else: <interpreted>`.  The analysis follows the interpreted reference
+            # branch (numba is trusted to preserve the semantics of what it compiles), whichever way round the `if` is written.
+            if isinstance(t, ast.Name) and t.id == 'use_numba':
+                return False
+            if isinstance(t, ast.UnaryOp) and isinstance(t.op, ast.Not):
+                v = static_test(t.operand)
+                return None if v is None else (not v)
+            return None
+
         def visit(body):
             for st in body:
                 if isinstance(st, (ast.FunctionDef, ast.ClassDef)):
@@ -95,7 +106,21 @@ class Mod:
                     t = ast.unparse(st.test)
                     if 'TYPE_CHECKING' in t:
                         continue
-                    visit(st.body); visit(st.orelse)
+                    live = static_test(st.test)
+                    if live is True:
+                        visit(st.body)
+                    elif live is False:
+                        visit(st.orelse)
+                    else:
+                        # undecidable test: names bound differently in both branches are ambiguous (resolving one is an analysis error, never an
+                        # order-dependent guess); names bound in one branch only are taken from it
+                        before = dict(self.defs)
+                        visit(st.body)
+                        a = {k for k, v in self.defs.items() if before.get(k) is not v}
+                        mid = dict(self.defs)
+                        visit(st.orelse)
+                        b = {k for k, v in self.defs.items() if mid.get(k) is not v}
+                        self.ambiguous |= (a & b)
                 elif isinstance(st, ast.Try):
                     visit(st.body)
         visit(self.tree.body)
@@ -159,6 +184,8 @@ class Repo:
         if depth > 12:
             raise AnalysisError(f'import cycle resolving {name} from {mod.name}')
         if name in mod.defs:
+            if name in mod.ambiguous:
+                raise AnalysisError(f'{mod.rel()}: `{name}` is bound differently in both branches of a module-level `if` whose test cannot be decided statically')
             return ('def', mod, mod.defs[name])
         imp = mod.imports.get(name)
         if imp is None:
